@@ -117,7 +117,10 @@ def check_case(ctx, case):
                     ctx.violation("decreasing_ids_accepted:" + name, {"n_loaded": len(o.value)})
                 elif not isinstance(o.exc, ValueError):
                     ctx.unexpected(o, "negative:" + name)
-            return
+            # ... and the well-formed file, written under the same name right after the refused one, decodes to its catalogs
+            files.write_catalog_forecast(path, cats, case["enc"], header=case["header"], frac=case.get("timefmt", "auto"),
+                                         eol=case.get("eol", "\r\n"), final_newline=case.get("final_newline", True))
+            ctx.count("well_formed_file_loaded_after_a_refused_one")
         for name, f in loaders(as_path(case, path), n):
             o = call(f)
             if not o.ok:
